@@ -189,6 +189,10 @@ Definition site_refs : list sref :=
   (* 70 g_batch_writer *)
       ref 70 "chanutils/batch_writer.go:BatchWriter.manageNewItems" "" Select
         [(RecvFromOk "b.queue.ChanOut()", E); (Timer "ticker.C", E); (RecvFrom "b.quit", Q CBatch)] 1;
+  (* 72 g_batch_final_write: the same select; once <-b.quit has fired the
+     writer does its final write (budget 500 ms) and returns *)
+      ref 72 "chanutils/batch_writer.go:BatchWriter.manageNewItems" "" Select
+        [(RecvFromOk "b.queue.ChanOut()", E); (Timer "ticker.C", E); (RecvFrom "b.quit", [Quit CBatch; Tmr 500])] 1;
   (* 71 g_batch_queue *)
       ref 71 "chanutils/queue.go:ConcurrentQueue.start" "go" Select
         [(RecvFromOk "cq.chanIn", E); (RecvFrom "cq.quit", Q CBatch)] 1;
